@@ -402,10 +402,24 @@ UNDEF = ("undef",)
 
 
 class Mismatch(Exception):
-    def __init__(self, kind, msg):
+    def __init__(self, kind, msg, info=None):
         super().__init__(msg)
         self.kind = kind
         self.msg = msg
+        self.info = info or {}
+
+
+def origin(sym):
+    """Pre-allocation index of the instruction whose write produced this symbol (None: entry value, spill code, ...)."""
+    import re
+
+    while sym and sym[0] == "part":
+        sym = sym[1]
+    if sym and sym[0] in ("def", "clob") and isinstance(sym[1], str):
+        m = re.match(r"#(\d+) before allocation", sym[1])
+        if m:
+            return int(m.group(1))
+    return None
 
 
 class Sim:
@@ -517,6 +531,7 @@ class Sim:
                     "read",
                     "%s reads operand %r from %s: before allocation it holds %s; after allocation %s holds %s"
                     % (where, xp.uses[k].name, pl.name, self.describe(a), pl.name, self.describe(b)),
+                    {"reader": self.rec.pre_index[id(xp.ins)], "operand": k, "clobberer": origin(b)},
                 )
         if xp.plain_move:
             self.pre_write(xp.defs[0], ins_a[0])
@@ -877,8 +892,48 @@ def run_path(rec, choices, dist, max_steps):
     try:
         sim.run(choices, max_steps)
     except Mismatch as m:
-        return (m.kind, m.msg), sim
+        msg = m.msg
+        why = explain_kf1(rec, m.info) if m.kind == "read" else None
+        if why:
+            msg += "\n[KF1: " + why + "]"
+        return (m.kind, msg), sim
     return None, sim
+
+
+def explain_kf1(rec, info):
+    """Model of the wrong output for finding C06-KF1: ppci's FlowGraph has no fall-through edge from an instruction
+    without `jumps` into a following jump target.  Returns the explanation iff (a) the frame has that shape and (b) with
+    liveness computed WITHOUT those edges the clobbered value is dead at the clobbering definition, while it is live
+    with them - i.e. exactly this defect accounts for the mismatch.  Anything else stays unexplained (and alarms)."""
+    c, r, k = info.get("clobberer"), info.get("reader"), info.get("operand")
+    if c is None or r is None:
+        return None
+    pre = rec.pre
+    n = len(pre)
+    targets = set()
+    for x in pre:
+        for t in x.jumps:
+            if id(t) in rec.pre_index:
+                targets.add(rec.pre_index[id(t)])
+    shape = [i for i in range(n - 1) if not pre[i].jumps and (i + 1) in targets]
+    if not shape:
+        return None
+    full = succs_of(pre, rec.pre_index)
+    ppci = []
+    for i, x in enumerate(pre):
+        if x.jumps:
+            ppci.append(full[i])
+        elif i + 1 < n and (i + 1) not in targets:
+            ppci.append([i + 1])
+        else:
+            ppci.append([None])
+    v = id(pre[r].uses[k])
+    _, out_full = liveness(pre, full)
+    _, out_ppci = liveness(pre, ppci)
+    if v in out_full[c] and v not in out_ppci[c]:
+        return "ppci's FlowGraph has no fall-through edge into the jump target(s) at #%s, so its liveness takes %r for dead at #%d [%s], which overwrites it" % (
+            ",".join(str(i + 1) for i in shape[:4]), pre[r].uses[k].name, c, pre[c].text)
+    return None
 
 
 def check_frame(rec, tail, max_witness, stats):
@@ -1432,6 +1487,7 @@ def genir_profile(ti):
         max_funcs=3,
         permute_blocks=True,
         phi_liveout=True,
+        observe=ti.pbits > 16,  # the accumulator idiom (x * 31 + v) is not covered by the 16-bit back-ends
     )
 
 
@@ -1770,7 +1826,18 @@ class _FB:
         head["ins"].append(["cjmp", ca, self.pick(["<", "!=", ">"]), cb, latch["name"], after["name"]])
         self.cur = after
 
-    def fold_all(self, ret_ty, q):
+    def finish(self, value, loop_to):
+        if loop_to is None:
+            self.emit(["ret", value])
+            return
+        # the function's first block becomes a branch target (a loop around the whole body)
+        ty, a, b = self.cmp_pair()
+        last = self.block()
+        self.emit(["cjmp", a, "<", b, loop_to, last["name"]])
+        self.cur = last
+        self.emit(["ret", value])
+
+    def fold_all(self, ret_ty, q, loop_to=None):
         """Make every pooled value matter up to the end of the function."""
         target = self.ti.target
         accs = {}
@@ -1797,9 +1864,9 @@ class _FB:
         if ret_ty in accs:
             if q is not None:
                 self.emit(["store", accs[ret_ty], q, False])
-            self.emit(["ret", accs[ret_ty]])
+            self.finish(accs[ret_ty], loop_to)
         else:
-            self.emit(["ret", self.value(ret_ty)])
+            self.finish(self.value(ret_ty), loop_to)
 
 
 class _SM:
@@ -1814,15 +1881,23 @@ class _SM:
         return name
 
 
+def kf1_open():
+    from ..core import open_finding_ids
+
+    return "C06-KF1" in open_finding_ids(PID)
+
+
 def stress_module(ti, flavour):
     from hypothesis import strategies as st
 
     cap = CAP[ti.target]
+    exclude_kf1 = kf1_open()
 
     @st.composite
     def _m(draw):
         mod = _SM(ti)
         funcs = []
+        excluded = 0
         for fi in range(draw(st.integers(1, 2))):
             fb = _FB(draw, "s%d" % fi, ti, mod)
             heavy = flavour == "spill"
@@ -1838,9 +1913,12 @@ def stress_module(ti, flavour):
                     fb.add(n, t)
             else:
                 ity = ti.ity
-                params = [["%s_p" % fb.name, "ptr"], ["%s_q" % fb.name, "ptr"], ["%s_a" % fb.name, ity], ["%s_b" % fb.name, ity]]
-                fb.add(params[2][0], ity)
-                fb.add(params[3][0], ity)
+                ptys = [t for t in cap["call"] if t[0] != "f"] or [ity]
+                ta = ity if draw(st.integers(0, 99)) < 50 else fb.pick(ptys)
+                tb = ity if draw(st.integers(0, 99)) < 50 else fb.pick(ptys)
+                params = [["%s_p" % fb.name, "ptr"], ["%s_q" % fb.name, "ptr"], ["%s_a" % fb.name, ta], ["%s_b" % fb.name, tb]]
+                fb.add(params[2][0], ta)
+                fb.add(params[3][0], tb)
                 fb.cur = fb.block()
                 q = params[1][0]
                 ltypes = [t for t in cap["load"] if t[0] != "f" or draw(st.integers(0, 99)) < 50]
@@ -1854,9 +1932,24 @@ def stress_module(ti, flavour):
                     ty = ity if (wide and draw(st.integers(0, 99)) < 70) else fb.pick(ltypes)
                     fb.add(fb.load(ty, params[0][0], (i * 8) % 64), ty)
             nseg = draw(st.integers(0, 1)) if fb.regs_only else draw(st.integers(1, 4))
+            # C06-KF1 (open): no fall-through edge into a jump target.  The shape that triggers it at will - the entry block
+            # as a branch target - is not generated while the finding is open.  (The other way in, mips' CJMP patterns that
+            # emit no jump, turned up only under a mutant; it is left to classify().)
+            entry_loop = not fb.regs_only and draw(st.integers(0, 99)) < 15
+            if entry_loop and exclude_kf1:
+                entry_loop = False
+                excluded += 1
+            straight_only = False
             for _ in range(nseg):
                 r = draw(st.integers(0, 99))
-                if heavy:
+                if straight_only:
+                    if r < 50:
+                        fb.seg_straight(heavy)
+                    elif r < 80:
+                        fb.seg_callchain()
+                    else:
+                        fb.seg_castchain()
+                elif heavy:
                     if r < 30:
                         fb.seg_straight(True)
                     elif r < 55:
@@ -1880,10 +1973,13 @@ def stress_module(ti, flavour):
                         fb.seg_callchain()
                     else:
                         fb.seg_castchain()
-            fb.fold_all(ity, q)
+            fb.fold_all(ity, q, loop_to=fb.blocks[0]["name"] if entry_loop else None)
             funcs.append({"name": fb.name, "params": params, "ret": ity, "bufs": {}, "tailrec": False, "blocks": fb.blocks,
                           "layout": list(range(len(fb.blocks)))})
-        return {"ptr_bits": ti.pbits, "globals": [], "externals": list(mod.externals.values()), "functions": funcs}
+        m = {"ptr_bits": ti.pbits, "globals": [], "externals": list(mod.externals.values()), "functions": funcs}
+        if excluded:
+            m["excluded_kf1"] = excluded
+        return m
 
     return _m()
 
@@ -1912,6 +2008,8 @@ def case_strategy(targets):
             gen = "genir"
         if CAP[target].get("regs_only"):
             gen = "copy" if gen in ("cc", "copy") else "spill"
+        if ti.pbits == 16 and gen in ("genir", "cc") and draw(st.integers(0, 99)) < 70:
+            gen = "copy" if gen == "cc" else "spill"  # genir's i32 loop guard and most gencc units do not compile there
         case = {"target": target, "gen": gen}
         if gen == "genir":
             case["kind"] = "ir"
@@ -1930,6 +2028,8 @@ def case_strategy(targets):
         else:
             case["kind"] = "ir"
             case["module"] = draw(stress_module(ti, gen))
+            if "excluded_kf1" in case["module"]:
+                case["excluded"] = {"C06-KF1": case["module"].pop("excluded_kf1")}
             case["level"] = draw(st.sampled_from(["0", "0", "2"]))
         case["tail"] = draw(st.lists(st.integers(0, 1), max_size=24))
         return case
@@ -1943,6 +2043,11 @@ def case_strategy(targets):
 
 
 def classify(case, msg):
+    """C06-KF1: the mismatch is a read whose value was overwritten by a definition at which ppci's liveness (flow graph
+    without fall-through edges into jump targets) takes the value for dead although it is live - decided in the child by
+    `explain_kf1` on the frame itself (input shape AND model of the wrong liveness); everything else stays a violation."""
+    if msg and msg.startswith("[read]") and "\n[KF1: ppci's FlowGraph has no fall-through edge" in msg:
+        return "C06-KF1"
     return None
 
 
@@ -1950,6 +2055,8 @@ def record(stats, case, res):
     """Book-keeping for one evaluated module."""
     target = case["target"]
     gen = case.get("gen", case["kind"])
+    for kid, n in (case.get("excluded") or {}).items():
+        stats.excluded[kid] += n
     for reason, n in (res.get("func_discards") or {}).items():
         for _ in range(n):
             stats.discard("function: " + reason)
